@@ -43,6 +43,8 @@ Definition distinct_engines (es : list string) : nat :=
 Definition global_overrides_ok (engines : list string) (ovs : list override) : bool :=
   negb (Nat.ltb 1 (distinct_engines engines)) || forallb (fun o => negb (String.eqb (ov_engine o) "")) ovs.
 
+Definition known_engine (e : string) : bool := mem_str e ["mysql"; "postgresql"; "_lemon"].
+
 (** v1ParseConfig after decoding *)
 Definition v1_parse (c : v1conf) : result config :=
   if String.eqb (v1_version c) "" then Err "no version number"
@@ -53,6 +55,7 @@ Definition v1_parse (c : v1conf) : result config :=
   else if negb (forallb override_ok (v1_overrides c)) then Err "override"
   else if existsb (fun p => String.eqb (p_path p) "") (v1_packages c) then Err "missing package path"
   else if negb (forallb (fun p => forallb override_ok (p_overrides p)) (v1_packages c)) then Err "override"
+  else if negb (forallb (fun p => known_engine (if String.eqb (p_engine p) "" then "postgresql" else p_engine p)) (v1_packages c)) then Err "invalid engine"
   else
     Ok (mkConf (v1_version c)
           (map (fun p =>
@@ -72,6 +75,7 @@ Definition v2_parse (c : config) : result config :=
        then Err "engine field required"
   else if negb (forallb override_ok (match c_gen_go c with Some (o, _) => o | None => [] end)) then Err "override"
   else if existsb (fun s => String.eqb (s_engine s) "") (c_sql c) then Err "unknown engine"
+  else if negb (forallb (fun s => known_engine (s_engine s)) (c_sql c)) then Err "invalid engine"
   else if existsb (fun s => match s_go s with Some g => String.eqb (g_out g) "" | None => false end) (c_sql c) then Err "missing package path"
   else if negb (forallb (fun s => match s_go s with Some g => forallb override_ok (g_overrides g) | None => true end) (c_sql c)) then Err "override"
   else
